@@ -156,7 +156,10 @@ class Check:
                 continue
             os.makedirs(out_dir, exist_ok=True)
             rp = None
-            if replayer is not None:
+            if isinstance(ob.witness, dict) and ob.witness.get("engine") == "direct" and "failing_input_found" in ob.witness:
+                # the obligation was itself decided on concrete inputs of the real code (backend conformance, forwarding, frame enumerations): the witness is the replay
+                rp = dict(ob.witness, replayed=True)
+            elif replayer is not None:
                 try:
                     rp = replayer(ob)
                 except Exception:
